@@ -75,6 +75,7 @@ var (
 	flagNoEvidence = flag.Bool("noevidence", false, "do not write evidence files")
 	flagV       = flag.Bool("v", false, "verbose")
 	flagWitness = flag.Int("witness", 3, "path witnesses per harness replayed natively")
+	flagDeadline = flag.Int("deadline", 0, "seconds of exploration after which harnesses stop (0: 420 quick, 5400 thorough)")
 )
 
 func main() {
@@ -154,6 +155,14 @@ func main() {
 		}
 	}()
 
+	dl := *flagDeadline
+	if dl == 0 {
+		dl = 420
+		if *flagTier == "thorough" {
+			dl = 5400
+		}
+	}
+	deadline := time.Now().Add(time.Duration(dl) * time.Second)
 	// schedule harnesses over the machine pool
 	pool := make(chan *interp.Machine, len(machines))
 	for _, m := range machines {
@@ -189,6 +198,8 @@ func main() {
 		}
 		run.AllowPanic = h.AllowPanic
 		run.WitnessCap = *flagWitness
+		run.Deadline = deadline
+		run.MaxViolations = 12
 		h.run = run
 		nw := h.Workers
 		if nw <= 0 {
